@@ -175,23 +175,16 @@ def s4(ck, an):
     ck.check(found, "GUARD", "S4.untargeted-exempt-from-threshold", fa.f.short, fa.f.loc, "the threshold skip requires `contract in self.allocation`: the old lead (held, no longer targeted) is always closed",
              "the threshold skip does not require membership in the target allocation: a small position in the old lead would not be closed at the roll", construct="contract in self.allocation")
     # imbalance includes current holdings (so the old lead appears with -holding): C03-S2
-    k = None
-    for s in all_stmts(fa):
-        if isinstance(s, ast.AugAssign) and isinstance(s.op, ast.Sub) and "holdings_quantity" in ast.unparse(s.value):
-            k = s
-    ck.check(k is not None and ast.unparse(k.value) == "NrContracts(broker.holdings_quantity)", "ARGFLOW", "S4.holdings-subtracted", fa.f.short, fa.f.loc, "current holdings (all contracts, incl. the old lead) are subtracted from the target",
-             "holdings are not subtracted from the target", construct="imbalance -= NrContracts(broker.holdings_quantity)")
+    from rules import C03
+    C03.s2(Renamed(ck, "C03:"), an)      # under `absolute` the imbalance is target contracts - NrContracts(current holdings), by value id
 
 
 def s5(ck, an):
     ff = an.fa("Future.make_events")
     r = returns_in(ff)
-    ok = len(r) == 1 and isinstance(r[0].value, ast.List) and len(r[0].value.elts) == 1 and isinstance(r[0].value.elts[0], ast.Call)
-    if ok:
-        c = r[0].value.elts[0]
-        kw = {k.arg: ast.unparse(k.value) for k in c.keywords}
-        pos = [ast.unparse(a) for a in c.args]
-        ok = ast.unparse(c.func) == "EventContractDiscontinued" and (kw == {"time": "self.expiry", "contract": "self"} or pos == ["self.expiry", "self"])
+    rc = ret_canons(ff)
+    ok = len(rc) == 1 and rc[0] in [specv(ff, t).key() for t in ("[EventContractDiscontinued(time=self.expiry, contract=self)]", "[EventContractDiscontinued(self.expiry, self)]",
+                                                                   "[EventContractDiscontinued(self.expiry, contract=self)]", "[EventContractDiscontinued(contract=self, time=self.expiry)]")]
     ck.check(ok, "ARGFLOW", "S5.one-discontinuation-at-expiry", ff.f.short, ff.f.loc, "a future yields exactly one EventContractDiscontinued(time=self.expiry, contract=self)",
              f"Future.make_events returns {ast.unparse(r[0].value)[:90] if r else '?'}", construct="return [EventContractDiscontinued(time=self.expiry, contract=self)]")
     fc = an.fa("FutureChain.make_events")
